@@ -45,6 +45,7 @@ def main():
         if r.returncode:
             print(name, "worktree failed", r.stderr)
             continue
+        shutil.copy("/repo/spsdk/__version__.py", os.path.join(wt, "spsdk", "__version__.py"))
         try:
             r = sh(f"git -C {wt} apply --whitespace=nowarn {os.path.join(d, 'patch.diff')}")
             if r.returncode:
